@@ -20,6 +20,7 @@ import (
 	metav1 "k8s.io/apimachinery/pkg/apis/meta/v1"
 	"k8s.io/apimachinery/pkg/runtime"
 	"k8s.io/apimachinery/pkg/util/intstr"
+	gatewayv1 "sigs.k8s.io/gateway-api/apis/v1"
 
 	extensions "istio.io/api/extensions/v1alpha1"
 	meshconfig "istio.io/api/mesh/v1alpha1"
@@ -238,6 +239,83 @@ func (g *mgen) k8sObjects() {
 				Ports: []corev1.ServicePort{{Name: "http", Port: 80, Protocol: corev1.ProtocolTCP}}},
 		})
 		g.hosts = append(g.hosts, k8sHost("alias", "default"))
+	}
+}
+
+// gammaRoutes: Gateway API HTTPRoutes attached to a Kubernetes Service (mesh routes), several per parent and of
+// equal age; the gateway controller converts and merges them into VirtualServices.
+func (g *mgen) gammaRoutes() {
+	if !g.r.Chance(1, 3) {
+		return
+	}
+	n := 2 + g.r.Intn(2)
+	for i := 0; i < n; i++ {
+		ns := g.pick([]string{"default", "default", "ns1"})
+		pt := gatewayv1.PathMatchPathPrefix
+		ht := gatewayv1.HeaderMatchExact
+		qt := gatewayv1.QueryParamMatchExact
+		rule := gatewayv1.HTTPRouteRule{
+			Matches: []gatewayv1.HTTPRouteMatch{{
+				Path:        &gatewayv1.HTTPPathMatch{Type: &pt, Value: ptr.Of("/g" + strconv.Itoa(g.r.Intn(2)))},
+				Headers:     []gatewayv1.HTTPHeaderMatch{{Type: &ht, Name: "x-b", Value: "1"}, {Type: &ht, Name: "x-a", Value: "2"}},
+				QueryParams: []gatewayv1.HTTPQueryParamMatch{{Type: &qt, Name: "q", Value: "1"}, {Type: &qt, Name: "id", Value: "2"}},
+			}},
+		}
+		for _, b := range []string{"b", "a"} {
+			rule.BackendRefs = append(rule.BackendRefs, gatewayv1.HTTPBackendRef{BackendRef: gatewayv1.BackendRef{
+				BackendObjectReference: gatewayv1.BackendObjectReference{Name: gatewayv1.ObjectName(b), Port: ptr.Of(gatewayv1.PortNumber(80))}, Weight: ptr.Of(int32(50))}})
+		}
+		name := "hr" + strconv.Itoa(i)
+		g.addK8s("gamma-httproute", "HTTPRoute/"+ns+"/"+name, &gatewayv1.HTTPRoute{
+			ObjectMeta: metav1.ObjectMeta{Name: name, Namespace: ns, CreationTimestamp: metav1.NewTime(g.when()), ResourceVersion: "1"},
+			Spec: gatewayv1.HTTPRouteSpec{
+				CommonRouteSpec: gatewayv1.CommonRouteSpec{ParentRefs: []gatewayv1.ParentReference{{
+					Group: ptr.Of(gatewayv1.Group("")), Kind: ptr.Of(gatewayv1.Kind("Service")), Name: "a", Namespace: ptr.Of(gatewayv1.Namespace("default"))}}},
+				Rules: []gatewayv1.HTTPRouteRule{rule},
+			},
+		})
+	}
+}
+
+// delegates: a root VirtualService that delegates two prefixes to delegate VirtualServices of equal age.
+func (g *mgen) delegates() {
+	if len(g.hosts) == 0 || !g.r.Chance(1, 4) {
+		return
+	}
+	root := &networking.VirtualService{Hosts: []string{g.pick(g.hosts)}}
+	for i := 0; i < 2; i++ {
+		dn := "vsd" + strconv.Itoa(i)
+		dns := g.pick([]string{"default", "ns1"})
+		root.Http = append(root.Http, &networking.HTTPRoute{
+			Match:    []*networking.HTTPMatchRequest{{Uri: prefix("/d" + strconv.Itoa(i))}},
+			Delegate: &networking.Delegate{Name: dn, Namespace: dns},
+		})
+		d := &networking.VirtualService{}
+		for k := 0; k < 2; k++ {
+			r := simpleRoute(g.pick(g.hosts))
+			r.Match = []*networking.HTTPMatchRequest{{Uri: prefix(fmt.Sprintf("/d%d/p%d", i, k)),
+				Headers: map[string]*networking.StringMatch{"x-b": exact("1"), "x-a": exact("2")}, QueryParams: map[string]*networking.StringMatch{"q": exact("1"), "id": exact("2")}}}
+			d.Http = append(d.Http, r)
+		}
+		g.addCfg("virtualservice-delegate", g.meta(gvk.VirtualService, dn, dns), d)
+	}
+	root.Http = append(root.Http, simpleRoute(g.pick(g.hosts)))
+	g.addCfg("virtualservice-root", g.meta(gvk.VirtualService, "vsroot", "default"), root)
+}
+
+// trafficExtensions: Lua TrafficExtensions of equal age, several per phase, some with equal priority.
+func (g *mgen) trafficExtensions() {
+	for i, n := 0, g.r.Intn(4); i < n; i++ {
+		ns := g.pick(meshNamespaces)
+		te := &extensions.TrafficExtension{Phase: extensions.TrafficExtension_ExecutionPhase(g.r.Intn(3)),
+			FilterConfig: &extensions.TrafficExtension_Lua{Lua: &extensions.LuaConfig{InlineCode: fmt.Sprintf("function envoy_on_request(h) h:headers():add('x-te', '%d') end", i)}}}
+		if g.r.Chance(2, 3) {
+			te.Priority = wrapperspb.Int32(int32(g.r.Intn(2)))
+		}
+		if g.r.Chance(1, 3) {
+			te.Selector = &typev1beta1.WorkloadSelector{MatchLabels: map[string]string{"app": "a"}}
+		}
+		g.addCfg("trafficextension", g.meta(gvk.TrafficExtension, "te"+strconv.Itoa(i), ns), te)
 	}
 }
 
@@ -877,13 +955,16 @@ func buildMesh(seed uint64) *meshDesc {
 		g.scale = 3
 	}
 	g.k8sObjects()
+	g.gammaRoutes()
 	g.serviceEntries()
 	gws := g.gateways()
 	g.virtualServices(gws)
+	g.delegates()
 	g.destinationRules()
 	g.sidecars()
 	g.security()
 	g.extensions()
+	g.trafficExtensions()
 	return &meshDesc{seed: seed, objs: g.objs, mc: g.meshConfig()}
 }
 
